@@ -1491,10 +1491,13 @@ func buildFromStringProto(src protoreflect.FieldDescriptor, ext protoFieldExtens
 			}
 
 		case "natural_key":
-			keyField.Format = &schema_j5pb.KeyFormat{
-				Type: &schema_j5pb.KeyFormat_Informal_{
-					Informal: &schema_j5pb.KeyFormat_Informal{},
-				},
+			if keyField.Format == nil {
+				// unique_string list rules are also used for custom keys
+				keyField.Format = &schema_j5pb.KeyFormat{
+					Type: &schema_j5pb.KeyFormat_Informal_{
+						Informal: &schema_j5pb.KeyFormat_Informal{},
+					},
+				}
 			}
 		}
 	}
